@@ -580,3 +580,10 @@ Print Assumptions untouched_unchanged.
 Print Assumptions view_apply_op.
 Print Assumptions view_apply_op_same_tree.
 Print Assumptions outside_apply_op.
+Print Assumptions delete_refused.
+Print Assumptions rename_refused.
+Print Assumptions write_law.
+Print Assumptions write_refused.
+Print Assumptions create_law.
+Print Assumptions mkdir_law.
+Print Assumptions wf_view.
